@@ -378,6 +378,38 @@ func c20Pass(c *mon.Ctx) {
 	if len(tables.Operators) != len(uapi.Operators) {
 		bad("operator-count", "%d operators in the rule table, %d in linux/audit.h", len(tables.Operators), len(uapi.Operators))
 	}
+	// every operator table entry through the text form: '-F a0<op>3' / '-F pid<op>3' must reach Build as that
+	// operator (the flag parser has its own list of operator spellings), encode its code and print back.
+	for name, code := range tables.Operators {
+		for _, fld := range []string{"a0", "pid", "exit"} {
+			ev.Add(1)
+			line := fmt.Sprintf("-a always,exit -S 1 -F %s%s3", fld, name)
+			r, err := flags.Parse(line)
+			if err != nil {
+				bad("operator-rule-parse", "%s: %v", line, err)
+				continue
+			}
+			w, err := rule.Build(r)
+			if err != nil {
+				bad("operator-rule-build", "%s: operator %q of the table does not survive the flag parser: %v", line, name, err)
+				continue
+			}
+			d, _ := rulegen.Decode(w)
+			if d.FieldCount != 1 || d.Fields[0] != uapi.Fields[fld] || d.FieldFlags[0] != code || d.Values[0] != 3 {
+				bad("operator-rule-code", "%s encodes field %d operator %#x value %d, want %d %#x 3", line, d.Fields[0], d.FieldFlags[0], d.Values[0], uapi.Fields[fld], code)
+			}
+			txt, err := rule.ToCommandLine(w, false)
+			if err != nil || !strings.Contains(txt, fld+name+"3") {
+				bad("operator-rule-decode", "%s -> %q (%v): the filter is not printed with its operator", line, txt, err)
+				continue
+			}
+			if r2, err := flags.Parse(txt); err != nil {
+				bad("operator-rule-roundtrip", "%s -> %q: %v", line, txt, err)
+			} else if w2, err := rule.Build(r2); err != nil || string(w2) != string(w) {
+				bad("operator-rule-roundtrip", "%s -> %q: re-encoding differs (%v)", line, txt, err)
+			}
+		}
+	}
 	seenCmp := map[uint32]bool{}
 	for _, cmp := range tables.Comparisons {
 		ev.Add(1)
